@@ -17,7 +17,7 @@ namespace sim {
 std::string GenCfg::key() const
 {
   std::ostringstream o;
-  o << cat << ":" << nuc << ":" << level << ":" << mode << ":" << emin_keV << ":" << emax_keV << ":" << mdl;
+  o << cat << ":" << nuc << ":" << level << ":" << mode << ":" << emin_keV << ":" << emax_keV << ":" << mdl << (debug ? ":debug" : "");
   return o.str();
 }
 
@@ -93,10 +93,35 @@ bool mode_supports_window(int mode)
   return w.count(mode) != 0;
 }
 
-int mdl_presets() { return 4; }
+int mdl_presets() { return 6; }
+
+namespace {
+// operations of the application's own: i_event_op is a public interface, the shipped momentum-direction-lock is one implementation of it
+struct MirrorOp : public bxdecay0::i_event_op
+{
+  std::string name() const override { return "mirror"; }
+  void operator()(bxdecay0::i_random &, bxdecay0::event & ev) override
+  {
+    for (auto & p : ev.grab_particles()) p.set_momentum(-p.get_px(), -p.get_py(), -p.get_pz());
+  }
+  void smart_dump(std::ostream & out, const std::string & indent) const override { out << indent << "mirror\n"; }
+};
+struct SpinOp : public bxdecay0::i_event_op
+{
+  std::string name() const override { return "spin"; }
+  void operator()(bxdecay0::i_random & prng, bxdecay0::event & ev) override
+  {
+    double a = 6.283185307179586 * prng(), c = std::cos(a), s = std::sin(a);
+    for (auto & p : ev.grab_particles()) p.set_momentum(c * p.get_px() - s * p.get_py(), s * p.get_px() + c * p.get_py(), p.get_pz());
+  }
+  void smart_dump(std::ostream & out, const std::string & indent) const override { out << indent << "spin\n"; }
+};
+} // namespace
 
 std::shared_ptr<bxdecay0::i_event_op> make_mdl(int preset)
 {
+  if (preset == 5) return std::make_shared<MirrorOp>();
+  if (preset == 6) return std::make_shared<SpinOp>();
   auto p = std::make_shared<bxdecay0::momentum_direction_lock_event_op>(false);
   using bxdecay0::momentum_direction_lock_event_op;
   switch (preset) {
@@ -121,6 +146,7 @@ std::shared_ptr<bxdecay0::i_event_op> make_mdl(int preset)
 
 void apply_cfg(bxdecay0::decay0_generator & g, const GenCfg & c)
 {
+  if (c.debug) g.set_debug(true);
   g.set_decay_category(c.cat == 1 ? bxdecay0::decay0_generator::DECAY_CATEGORY_DBD : bxdecay0::decay0_generator::DECAY_CATEGORY_BACKGROUND);
   g.set_decay_isotope(c.nuc);
   if (c.cat == 1) {
